@@ -167,6 +167,35 @@ theorem memAllocAll_allocNodup (r : Rec) : ∀ (l : List IP) (s : State), (Tbl.k
   | nil => intro s h; exact h
   | cons ip t ih => intro s h; unfold memAllocAll; exact ih _ (Tbl.nodup_keys_set _ _ h)
 
+theorem stCreate_crashMode (s : State) (ip : IP) (r : Rec) : (stCreate s ip r).1.crashMode = s.crashMode := by
+  unfold stCreate; dsimp only; split
+  · rfl
+  · split <;> rfl
+
+theorem stCreate_store_other (s : State) (ip j : IP) (r : Rec) (h : ip ≠ j) :
+    Tbl.get (stCreate s ip r).1.store j = Tbl.get s.store j := by
+  cases hb : (stCreate s ip r).2 with
+  | true => rw [(stCreate_store s ip r).1 hb, Tbl.get_set_ne _ _ h]
+  | false => rw [(stCreate_store s ip r).2 hb]
+
+theorem stDelete_store_other (s : State) (ip j : IP) (h : ip ≠ j) :
+    Tbl.get (stDelete s ip).1.store j = Tbl.get s.store j := by
+  cases hb : (stDelete s ip).2 with
+  | true => rw [(stDelete_store s ip).1 hb, Tbl.get_erase_ne _ h]
+  | false => rw [(stDelete_store s ip).2 hb]
+
+/-- whatever fails: the rollback touches the store at the listed addresses only -/
+theorem deleteAll_store_other : ∀ (l : List IP) (s : State) (j : IP), j ∉ l →
+    Tbl.get (deleteAll s l).store j = Tbl.get s.store j := by
+  intro l
+  induction l with
+  | nil => intro s j _; rfl
+  | cons ip t ih =>
+    intro s j hj
+    unfold deleteAll
+    have h1 : ip ≠ j := fun e => hj (by simp [e])
+    rw [ih _ j (fun hm => hj (by simp [hm])), stDelete_store_other s ip j h1]
+
 /-! ### createAll -/
 
 /-- the state while the picks are being created: memory untouched, the store holds `r` at the addresses done -/
@@ -177,7 +206,7 @@ structure Mid (s0 s : State) (r : Rec) (done : List IP) : Prop where
 theorem createAll_spec (s0 : State) (r : Rec) : ∀ (todo done : List IP) (s : State),
     Mid s0 s r done → (∀ j, j ∈ todo → Tbl.get s0.store j = none ∧ j ∉ done) → todo.Nodup →
     ((createAll s r done todo).2 = true → Mid s0 (createAll s r done todo).1 r (done ++ todo)) ∧
-    ((createAll s r done todo).2 = false → (∀ j, j ∈ done → Tbl.get s0.store j = none) →
+    ((createAll s r done todo).2 = false → s.crashMode = false → (∀ j, j ∈ done → Tbl.get s0.store j = none) →
       StoreStep s0 (createAll s r done todo).1 ∧
       ∀ j, Tbl.get (createAll s r done todo).1.store j = Tbl.get s0.store j) := by
   intro todo
@@ -199,8 +228,8 @@ theorem createAll_spec (s0 : State) (r : Rec) : ∀ (todo done : List IP) (s : S
     · -- the create failed: roll back
       rename_i hc
       have hc' : (stCreate s ip r).2 = false := by simpa using hc
-      have hsp := stCreate_fail_spent s ip r hstore hc'
-      refine ⟨fun h => (by cases h), fun _ hdone => ?_⟩
+      refine ⟨fun h => (by cases h), fun _ hcm hdone => ?_⟩
+      have hsp := stCreate_fail_spent s ip r hstore hc' hcm
       have d1 := deleteAll_step done (stCreate s ip r).1
       refine ⟨⟨(hm.step.frame.trans st.frame).trans d1.frame, by rw [d1.alloc, st.alloc, hm.step.alloc],
         by rw [d1.free, st.free, hm.step.free]⟩, fun j => ?_⟩
@@ -224,25 +253,50 @@ theorem createAll_spec (s0 : State) (r : Rec) : ∀ (todo done : List IP) (s : S
         simp only [List.mem_append, List.mem_singleton, not_or]
         exact ⟨this.2, fun e => hN'.1 (e ▸ hj)⟩
       have := ih (done ++ [ip]) (stCreate s ip r).1 hm' hT' hN'.2
-      refine ⟨fun h => ?_, fun h hdone => ?_⟩
+      refine ⟨fun h => ?_, fun h hcm hdone => ?_⟩
       · have := this.1 h
         simpa [List.append_assoc] using this
-      · apply this.2 h
+      · apply this.2 h (by rw [stCreate_crashMode]; exact hcm)
         intro j hj
         rcases List.mem_append.mp hj with hj | hj
         · exact hdone j hj
         · simp at hj; subst hj; exact hip.1
 
+/-- whatever fails (a crash plan included): memory is untouched and the store changes at the picked addresses only -/
+theorem createAll_persist (r : Rec) : ∀ (todo done : List IP) (s : State),
+    StoreStep s (createAll s r done todo).1 ∧
+    ∀ j, j ∉ done → j ∉ todo → Tbl.get (createAll s r done todo).1.store j = Tbl.get s.store j := by
+  intro todo
+  induction todo with
+  | nil => intro done s; exact ⟨⟨Frame.refl s, rfl, rfl⟩, fun _ _ _ => rfl⟩
+  | cons ip t ih =>
+    intro done s
+    have st := stCreate_step s ip r
+    unfold createAll
+    dsimp only
+    split
+    · have d := deleteAll_step done (stCreate s ip r).1
+      refine ⟨⟨st.frame.trans d.frame, d.alloc.trans st.alloc, d.free.trans st.free⟩, fun j hd ht => ?_⟩
+      rw [deleteAll_store_other done _ j hd, stCreate_store_other s ip j r (fun e => ht (by simp [e]))]
+    · have r2 := ih (done ++ [ip]) (stCreate s ip r).1
+      refine ⟨⟨st.frame.trans r2.1.frame, r2.1.alloc.trans st.alloc, r2.1.free.trans st.free⟩, fun j hd ht => ?_⟩
+      have hne : ip ≠ j := fun e => ht (by simp [e])
+      rw [r2.2 j (by simp only [List.mem_append, List.mem_singleton, not_or]; exact ⟨hd, fun e => hne e.symm⟩)
+        (fun hm => ht (by simp [hm])), stCreate_store_other s ip j r hne]
+
 /-! ### AllocateInSubnetsAndIPRange -/
 
 theorem allocateInSubnetsAndRanges_coherent (s : State) (key : Key) (n : Subnet) (rss : List (List (Nat × Nat)))
-    (a : Attr) (ch : Option IP) (h : Coherent s) : Coherent (allocateInSubnetsAndRanges s key n rss a ch).1 := by
+    (a : Attr) (ch : Option IP) (h : Coherent s) (hcm : s.crashMode = false ∨ (allocateInSubnetsAndRanges s key n rss a ch).2 = .ok) :
+    Coherent (allocateInSubnetsAndRanges s key n rss a ch).1 := by
+  revert hcm
   unfold allocateInSubnetsAndRanges
   split
-  · exact allocateInSubnet_coherent s key n a ch h
+  · intro _; exact allocateInSubnet_coherent s key n a ch h
   · split
-    · exact h
+    · intro _; exact h
     · rename_i picks hp
+      intro hcm
       obtain ⟨hfree, hnd⟩ := pickRanges_spec s n rss [] picks hp (by simp) (by simp)
       have hm0 : Mid s s (mkRec key a s.clock) [] := ⟨⟨Frame.refl s, rfl, rfl⟩, fun j => by simp⟩
       have hT : ∀ j, j ∈ picks → Tbl.get s.store j = none ∧ j ∉ ([] : List IP) := fun j hj =>
@@ -252,7 +306,11 @@ theorem allocateInSubnetsAndRanges_coherent (s : State) (key : Key) (n : Subnet)
       split
       · rename_i hc
         have hc' : (createAll s (mkRec key a s.clock) [] picks).2 = false := by simpa using hc
-        obtain ⟨st, hs⟩ := sp.2 hc' (by simp)
+        have hcm' : s.crashMode = false := by
+          rcases hcm with hcm | hcm
+          · exact hcm
+          · simp [hc] at hcm
+        obtain ⟨st, hs⟩ := sp.2 hc' hcm' (by simp)
         exact ⟨fun j => by rw [hs j, st.alloc]; exact h.agree j,
           fun j hj => by rw [st.alloc]; rw [st.free] at hj; exact h.disjoint j hj,
           fun j r hj => by rw [st.frame.pools]; rw [st.alloc] at hj; exact h.allocConf j r hj,
@@ -294,9 +352,7 @@ theorem allocateInSubnetsAndRanges_chg (s : State) (key : Key) (n : Subnet) (rss
       have sp := createAll_spec s (mkRec key a s.clock) picks [] s hm0 hT hnd
       dsimp only
       split
-      · rename_i hc
-        have hc' : (createAll s (mkRec key a s.clock) [] picks).2 = false := by simpa using hc
-        obtain ⟨st, _⟩ := sp.2 hc' (by simp)
+      · have st := (createAll_persist (mkRec key a s.clock) picks [] s).1
         exact Chg.of_alloc_eq st.frame st.alloc
       · rename_i hc
         have hc' : (createAll s (mkRec key a s.clock) [] picks).2 = true := by simpa using hc
@@ -308,5 +364,43 @@ theorem allocateInSubnetsAndRanges_chg (s : State) (key : Key) (n : Subnet) (rss
         · right
           exact ⟨h.disjoint j (hfree j hjp), ⟨mkRec key a s.clock, by simp [hjp], rfl, rfl⟩⟩
         · left; simp [hjp]
+
+/-- whatever fails (a crash plan included): an address that is allocated in memory keeps its store object, and memory
+    changes only by the allocation itself -/
+theorem allocateInSubnetsAndRanges_persist (s : State) (key : Key) (n : Subnet) (rss : List (List (Nat × Nat)))
+    (a : Attr) (ch : Option IP) (h : Coherent s) (j : IP) (r0 : Rec) (hj : Tbl.get s.alloc j = some r0) :
+    Tbl.get (allocateInSubnetsAndRanges s key n rss a ch).1.store j = Tbl.get s.store j := by
+  have hnf : j ∉ s.free := fun hm => by rw [h.disjoint j hm] at hj; cases hj
+  unfold allocateInSubnetsAndRanges
+  split
+  · -- single address: AllocateInSubnet
+    unfold allocateInSubnet
+    dsimp only
+    split
+    · rfl
+    · split
+      · rfl
+      · rename_i ip
+        split
+        · rfl
+        · rename_i hin
+          have hin' : ip ∈ s.free := by
+            have : ip ∈ s.free.filter (fun ip => hasSubnet s ip n) := by simpa using hin
+            exact (List.mem_filter.mp this).1
+          have hne : ip ≠ j := fun e => hnf (e ▸ hin')
+          split
+          · exact stCreate_store_other s ip j _ hne
+          · show Tbl.get (stCreate s ip _).1.store j = _
+            exact stCreate_store_other s ip j _ hne
+  · split
+    · rfl
+    · rename_i picks hp
+      obtain ⟨hfree, _⟩ := pickRanges_spec s n rss [] picks hp (by simp) (by simp)
+      have hnp : j ∉ picks := fun hm => hnf (hfree j hm)
+      have cp := (createAll_persist (mkRec key a s.clock) picks [] s).2 j (by simp) hnp
+      dsimp only
+      split
+      · exact cp
+      · rw [memAllocAll_store]; exact cp
 
 end Galaxy.Plugin
